@@ -519,13 +519,13 @@ def check(run):
                       "bit accounting claimed for the default encoder only ('arithmetic' needs jnp.unique: not traceable)"]
   ns = [1, 2, 3] if not thorough else [1, 2, 3, 4]
   Ls = [2, 3] if not thorough else [2, 3, 4, 5]
-  run.bounds = {'vector length': ns, 'levels': Ls, 'clients': 2, 'rounds': 2, 'leaves': '<=2'}
+  run.bounds = {'vector length': ns, 'TernGrad vector length': [1, 2], 'levels': Ls, 'clients': '2 (3 with a zero weight)', 'rounds': 2, 'leaves': '<=2 incl. a scalar leaf'}
   for n in ns:
     for L in Ls:
       run_uniform(run, n, L, timeout)
     run_uniform(run, n, 2, timeout, binary=True)
-    if n <= 2 or thorough:      # n=3 needs minutes of NRA time: thorough tier only
-      run_terngrad(run, n, timeout if n <= 2 else 600.0)
+    if n <= 2:      # n >= 3: the standard-deviation clip makes the query non-linear in 3+ variables; z3's NRA ran for hours without an
+      run_terngrad(run, n, timeout)      # answer (and without honouring its timeout), so TernGrad is claimed for n <= 2 only, in both tiers
     run_drive(run, n, timeout)
   bad, msg = aux_arithmetic_bits()
   run.ob('aux-concrete:arithmetic-encoder-bit-accounting(3 rounds)', 'sat' if bad else 'unsat', detail=msg if bad else None, nontrivial=False)
@@ -535,5 +535,5 @@ def check(run):
   shapes2 = {'a': (2,), 'b': ()}
   for name in AGGS:
     run_agg(run, name, [2.0, 1.0], shapes1, timeout)
-    if thorough:
-      run_agg(run, name, [1.0, 0.0, 3.0], shapes2, timeout)
+    if thorough or name in ('drive', 'rotated_uniform'):      # a scalar leaf goes through the rotation's shape bookkeeping
+      run_agg(run, name, [1.0, 0.0, 3.0] if thorough else [1.0, 2.0], shapes2, timeout)
